@@ -102,6 +102,18 @@ CHECKS = {
         "counted as proved (listed in the evidence); argument binding table->C call is a C01 obligation",
    technique=TECH + "degree grading (homogeneity contracts) over clang's AST, modular per function; numeric scaling replay",
    design="DESIGN.md 6 C13"),
+ "C14": dict(engine="cvc+pyvc",
+   text="For each of the 26 models with amplitude output, Fq is executed symbolically from clang's AST (helpers inlined, quadrature "
+        "loops summarised as Sigma terms, special functions uninterpreted) and brought to Sigma-normal form; the clause 'F and F^2 "
+        "are sums c_n f_n and c_n f_n^2 with a common node weight independent of q and the shape parameters' is a polynomial "
+        "identity (normal form modulo sin^2+cos^2=1, sqrt^2, exp laws) for symbolic node indices, F2=F1^2 exactly for symmetric "
+        "shapes; every 'equivalent volume sphere' mode satisfies M_4PI_3 R^3 = form_volume (cbrt^3=x); Kernel.Fq/Iq normalisation "
+        "and the amplitude kernels (F,F^2 interleaving, shell-volume slot, chunk restart) by the C01 contracts.",
+   note="the inequality itself follows from the structure by the weighted Cauchy-Schwarz lemma (Lean) with the measured node-weight "
+        "sum; models whose Fq leaves the subset (vector parameters, products of sums, do-while) get a bounded numeric stand-in "
+        "(listed, not counted); q->0 equality, positivity and finiteness only through the replay grid",
+   technique=TECH + "clang JSON AST -> Sigma-normal forms -> polynomial identities / z3; replay grid on call_Fq",
+   design="DESIGN.md 6 C14"),
  "C20": dict(engine="pyvc",
    text="convert_model and its 12 helpers are executed symbolically once per table entry and naming scheme with a finite-map "
         "input whose keys carry symbolic presence bits and symbolic values (state merging), so one run covers every subset "
